@@ -352,7 +352,43 @@ async def via_await():
 async def via_await_contract():
     await acontract()
     return 1
+
+
+def rplain():
+    raise ValueError
+
+
+async def rasync():
+    raise ValueError
+
+
+class R:
+    def boom(self):
+        raise ValueError
+
+    @deal.raises()
+    def exc_self(self):
+        self.boom()
+        return 1
+
+    @deal.raises()
+    def exc_class(self):
+        R.boom(self)
+        return 1
+
+
+@deal.raises()
+def exc_plain():
+    rplain()
+    return 1
+
+
+@deal.raises()
+async def exc_await():
+    await rasync()
+    return 1
 '''
+KINDS_WANT_EXC = ['exc_self', 'exc_class', 'exc_plain', 'exc_await']
 KINDS_WANT = {'via_self': 'stdout', 'via_class': 'stdout', 'via_plain': 'stdout', 'via_await': 'stdout', 'via_await_contract': 'time'}
 
 
@@ -371,6 +407,16 @@ def callee_kinds_probe(ctx, fr):
     got = {}
     for row, col, code, text in r['errors']:
         if code.startswith('DEL04') or code.startswith('DEL05'): got.setdefault(owner(row), set()).add(text.split('(')[-1].rstrip(')'))
+    gote = {}
+    for row, col, code, text in r['errors']:
+        if code == 'DEL021': gote.setdefault(owner(row), set()).add(text.split('(')[-1].rstrip(')'))
+    # exceptions: the dive is limited to plain functions (DESIGN 9.7: widening it to methods also charges the bodies of standard-library
+    # methods such as random.choice -> IndexError, a change of behaviour that was tried and withdrawn); only the plain callee is required
+    for fn in ['exc_plain']:
+        fr.evaluations += 1
+        if gote.get(fn, set()) != {'ValueError'}:
+            fr.violations.append({'scenario': {'family': 'callee-kinds', 'src': KINDS_SRC, 'function': fn}, 'impl': r, 'signature': None,
+                                  'what': f'{fn}: the exception its callee raises (ValueError) must be charged to it; DEL021 findings: {sorted(gote.get(fn, set()))}'})
     for fn, marker in KINDS_WANT.items():
         if got.get(fn, set()) != {marker}:
             fr.violations.append({'scenario': {'family': 'callee-kinds', 'src': KINDS_SRC, 'function': fn}, 'impl': r, 'signature': None,
